@@ -371,6 +371,52 @@ func GenDoc(r *rand.Rand, p *AP, kind int) (toks []Tok, b []byte) {
 			}
 		}
 		return nil, Serialise(toks, r)
+	case 6: // attribute-heavy: tags from the policy's own vocabulary with attributes its rules talk about
+		g.names = pool
+		if len(g.names) == 0 {
+			g.names = []string{"a", "img", "span"}
+		}
+		for _, pat := range genPatEls {
+			if p.Known(pat) {
+				g.names = append(g.names, pat)
+			}
+		}
+		g.names = append(g.names, "a", "img", "iframe", "link")
+		for k := 1 + r.Intn(3); k > 0; k-- {
+			n := pickS(r, g.names)
+			keys := []string{}
+			for a := range p.ElAttrs[n] {
+				keys = append(keys, a)
+			}
+			for a := range p.GlobalAttrs {
+				keys = append(keys, a)
+			}
+			for _, pat := range p.PatsFor(n) {
+				for a := range p.PatAttrs[pat] {
+					keys = append(keys, a)
+				}
+			}
+			keys = addSet(keys)
+			keys = append(keys, "href", "src", "rel", "target", "style", "class", "crossorigin", "sandbox", "data-x", "onclick", "cite")
+			as := []Attr{}
+			for j := 1 + r.Intn(4); j > 0; j-- {
+				key := pickS(r, keys)
+				as = append(as, Attr{key, GenAttrValue(r, key)})
+			}
+			toks = append(toks, Tok{T: "start", N: n, A: as})
+			if r.Intn(2) == 0 {
+				toks = append(toks, Tok{T: "text", D: g.mark("T"), A: []Attr{}})
+			}
+			if !VoidEls[n] && r.Intn(3) != 0 {
+				toks = append(toks, Tok{T: "end", N: n, A: []Attr{}})
+			}
+		}
+		var vr *rand.Rand
+		if r.Intn(2) == 0 {
+			vr = r
+		}
+		b = Serialise(toks, vr)
+		return toks, b
 	case 4: // fragment soup
 		var sb strings.Builder
 		for k := 1 + r.Intn(10); k > 0; k-- {
